@@ -109,6 +109,9 @@ def build_lib(variant="plain"):
         sh([sys.executable, os.path.join(ROOT, "extract", "lexemes.py"), os.path.join(REPO, "src/lexer.l"),
             os.path.join(REPO, "src/keywords.cpp"), os.path.join(gen, "lexemes.json.new")], timeout=60)
         _replace_if_changed(os.path.join(gen, "lexemes.json.new"), os.path.join(gen, "lexemes.json"))
+        sh([sys.executable, os.path.join(ROOT, "extract", "lexer_rules.py"), os.path.join(REPO, "src/lexer.l"),
+            os.path.join(gen, "lexer_rules.json.new"), os.path.join(REPO, "src/libparser.h")], timeout=60)
+        _replace_if_changed(os.path.join(gen, "lexer_rules.json.new"), os.path.join(gen, "lexer_rules.json"))
         log("lib[%s] up to date in %.1fs" % (variant, time.time() - t0))
         return lib
 
